@@ -128,7 +128,14 @@ impl PropImpl for C13 {
                 }
             }
         }
-        let out = r.wrap_and_sort().to_string();
+        let w = r.wrap_and_sort();
+        let out = w.to_string();
+        // the returned object denotes what its text says: its accessors agree with a re-read of the text
+        let (re, _) = ll::Relations::parse_relaxed(&out, true);
+        let live = lossless_entries(&w)?;
+        let reread = lossless_entries(&re)?;
+        ensure!(crate::props::c10::same_entries(&live, &reread), "live-result-agrees-with-its-text", "Relations::wrap_and_sort of {:?} returns an object that prints {:?} but reports {:?} (a re-read of that text gives {:?})", case.text, out, live, reread);
+        ensure_eq!(w.substvars().collect::<Vec<_>>(), re.substvars().collect::<Vec<_>>(), "live-result-agrees-with-its-text", "substitution variables of the object returned for {:?}", case.text);
         check_normalised(&case.field, &case.text, &out, "Relations::wrap_and_sort")
     }
     fn render(&self, case: &Case) -> String {
